@@ -45,6 +45,7 @@ type QCfg struct {
 	YieldPrefixes   []string `json:"yield_prefixes,omitempty"`
 	ShortReads      int      `json:"short_reads"` // 0 off, else 1/n chance to cut a read
 	TLS             bool     `json:"tls"`
+	TopicDiskFaults int      `json:"topic_disk_faults,omitempty"` // one in N writes to a topic's queue file fails (0 = never)
 	Topology        bool     `json:"topology_aware,omitempty"` // --enable-experiment=topology-aware-consumption with region/zone set
 	Steer           []SteerRule `json:"steer,omitempty"`
 	NoDrain         bool     `json:"no_drain,omitempty"`
@@ -478,6 +479,10 @@ func (w *qWorld) recordPub(body []byte, topic, via string, conn int, deferMs int
 }
 
 func (w *qWorld) ackPubs(ps []*pubRec, ok bool, unknown bool) {
+	if !ok && !unknown && len(ps) > 1 && w.cfg.TopicDiskFaults > 0 {
+		// a multi-publish that failed on a disk error may have enqueued a prefix of the batch
+		unknown = true
+	}
 	for _, p := range ps {
 		p.AckSeq = w.rc.Net.NextSeq()
 		p.AckAt = time.Now()
